@@ -260,6 +260,7 @@ let sx_of_err (e : err) : sx =
   | EArrayAmbiguous -> k "ArrayAmbiguous" []
   | ENestedArray -> k "NestedArray" []
   | EArrayUnresolvable -> k "ArrayUnresolvable" []
+  | EArrayEmptyElement -> k "ArrayEmptyElement" []
   | ENoMatchingFunction (f, ts) -> k "NoMatchingFunction" [A (string_of_ident f); L (A "sig" :: List.map sx_of_ty ts)]
   | EFold m -> k "Fold" [A (under (string_of_cl m))]
   | ESpeculateType t -> k "SpeculateType" [sx_of_ty t]
